@@ -1916,6 +1916,17 @@ impl ContextualHuffmanDecoder {
         Ok(result)
     }
 
+    /// Decode data produced by `ContextualHuffmanEncoder::encode_with_interleaving`
+    /// (`encode_x1` .. `encode_x8`) with the same factor (Order-1 only)
+    pub fn decode_with_interleaving(
+        &self,
+        data: &[u8],
+        output_size: usize,
+        factor: InterleavingFactor,
+    ) -> Result<Vec<u8>> {
+        self.encoder.decode_with_interleaving(data, output_size, factor)
+    }
+
     /// Decode Order-0 (classic Huffman)
     fn decode_order0(&self, encoded_data: &[u8], tree: &HuffmanTree, output_length: usize) -> Result<Vec<u8>> {
         let root = tree.root().ok_or_else(|| ZiporaError::invalid_data("Empty tree"))?;
